@@ -411,6 +411,7 @@ pub mod sync {
 
     pub struct Scheduler {
         rng: u64,
+        seed: u64,
         current: usize,
         threads: Vec<ThreadState>,
         owners: HashMap<usize, usize>,
@@ -434,6 +435,7 @@ pub mod sync {
             let mut guard = SCHED.lock().unwrap_or_else(|e| e.into_inner());
             *guard = Some(Scheduler {
                 rng: seed.wrapping_mul(0x9E3779B97F4A7C15) ^ 0xD1B54A32D192ED03,
+                seed,
                 current: 0,
                 threads: vec![ThreadState { pending: None, finished: false }],
                 owners: HashMap::new(),
@@ -493,7 +495,18 @@ pub mod sync {
                 }
                 return;
             }
-            let chosen = enabled[(self.next_random() >> 11) as usize % enabled.len()];
+            // scheduling policy (from the seed): uniform, or one thread favoured (3 in 4), or one thread starved (1 in 8)
+            let random = (self.next_random() >> 11) as usize;
+            let policy = (self.seed % 3, 1 + (self.seed / 3) as usize % self.threads.len().max(2).saturating_sub(1));
+            let uniform = enabled[random % enabled.len()];
+            let chosen = match policy {
+                (1, special) if enabled.contains(&special) && (random >> 8) % 4 != 0 => special,
+                (2, special) if uniform == special && enabled.len() > 1 && (random >> 8) % 8 != 0 => {
+                    let rest: Vec<usize> = enabled.iter().copied().filter(|t| *t != special).collect();
+                    rest[(random >> 16) % rest.len()]
+                }
+                _ => uniform,
+            };
             let pending = self.threads[chosen].pending.take().unwrap();
             let (kind, name, outcome) = match pending {
                 Pending::Lock(id) => {
